@@ -51,6 +51,11 @@ func rootedAtRecv(info *types.Info, e ast.Expr, recv types.Object) bool {
 			e = x.X
 		case *ast.StarExpr:
 			e = x.X
+		case *ast.UnaryExpr:
+			if x.Op != token.AND {
+				return false
+			}
+			e = x.X
 		case *ast.Ident:
 			o := info.Uses[x]
 			return o != nil && o == recv
@@ -118,6 +123,103 @@ func scanFootprints(root string) (fps []footprint, err error) {
 				byType[nt.Obj().Name()] = append(byType[nt.Obj().Name()], meth{fd, recv})
 			}
 		}
+		// summaries of package-level functions and methods: which parameters (by
+		// index, receiver excluded) they write through (x[i] = …, x.f = …, *x = …,
+		// copy(x, …), or passing x on to a function that does); fixpoint per package
+		writesParam := map[types.Object]map[int]bool{}
+		type fnInfo struct {
+			decl   *ast.FuncDecl
+			params []types.Object
+		}
+		var fns []fnInfo
+		for _, file := range p.files {
+			for _, d := range file.Decls {
+				fd, ok := d.(*ast.FuncDecl)
+				if !ok || fd.Body == nil {
+					continue
+				}
+				var ps []types.Object
+				for _, fl := range fd.Type.Params.List {
+					for _, n := range fl.Names {
+						ps = append(ps, p.info.Defs[n])
+					}
+				}
+				fns = append(fns, fnInfo{fd, ps})
+			}
+		}
+		for changed := true; changed; {
+			changed = false
+			for _, fi := range fns {
+				obj := p.info.Defs[fi.decl.Name]
+				if obj == nil {
+					continue
+				}
+				mark := func(i int) {
+					if writesParam[obj] == nil {
+						writesParam[obj] = map[int]bool{}
+					}
+					if !writesParam[obj][i] {
+						writesParam[obj][i] = true
+						changed = true
+					}
+				}
+				idx := func(e ast.Expr) int {
+					for i, po := range fi.params {
+						if po != nil && rootedAtRecv(p.info, e, po) {
+							return i
+						}
+					}
+					return -1
+				}
+				ast.Inspect(fi.decl.Body, func(n ast.Node) bool {
+					switch n := n.(type) {
+					case *ast.AssignStmt:
+						if n.Tok == token.DEFINE {
+							return true
+						}
+						for _, l := range n.Lhs {
+							if _, isIdent := l.(*ast.Ident); isIdent {
+								continue
+							}
+							if i := idx(l); i >= 0 {
+								mark(i)
+							}
+						}
+					case *ast.IncDecStmt:
+						if _, isIdent := n.X.(*ast.Ident); !isIdent {
+							if i := idx(n.X); i >= 0 {
+								mark(i)
+							}
+						}
+					case *ast.CallExpr:
+						if id, ok := n.Fun.(*ast.Ident); ok && id.Name == "copy" && len(n.Args) == 2 {
+							if i := idx(n.Args[0]); i >= 0 {
+								mark(i)
+							}
+						}
+						var callee types.Object
+						switch f := n.Fun.(type) {
+						case *ast.Ident:
+							callee = p.info.Uses[f]
+						case *ast.SelectorExpr:
+							if sel, ok := p.info.Selections[f]; ok {
+								callee = sel.Obj()
+							}
+						}
+						if callee != nil && writesParam[callee] != nil {
+							for ai, a := range n.Args {
+								if writesParam[callee][ai] {
+									if i := idx(a); i >= 0 {
+										mark(i)
+									}
+								}
+							}
+						}
+					}
+					return true
+				})
+			}
+		}
 		var tnames []string
 		for tn := range byType {
 			tnames = append(tnames, tn)
@@ -176,6 +278,29 @@ func scanFootprints(root string) (fps []footprint, err error) {
 								if _, isB := p.info.Uses[id].(*types.Builtin); isB && rootedAtRecv(p.info, n.Args[0], m.recv) {
 									if _, isIdent := n.Args[0].(*ast.Ident); !isIdent {
 										add(n, "copy("+types.ExprString(n.Args[0])+", …)")
+									}
+								}
+							}
+							{
+								var callee types.Object
+								switch f := n.Fun.(type) {
+								case *ast.Ident:
+									callee = p.info.Uses[f]
+								case *ast.SelectorExpr:
+									if sel, ok := p.info.Selections[f]; ok {
+										callee = sel.Obj()
+									}
+								}
+								if callee != nil && writesParam[callee] != nil {
+									for ai, a := range n.Args {
+										if !writesParam[callee][ai] || !rootedAtRecv(p.info, a, m.recv) {
+											continue
+										}
+										// only reference-typed arguments share memory with the receiver
+										switch p.info.Types[a].Type.Underlying().(type) {
+										case *types.Pointer, *types.Slice, *types.Map:
+											add(n, "passes "+types.ExprString(a)+" to "+callee.Name()+", which writes through it")
+										}
 									}
 								}
 							}
